@@ -9,6 +9,7 @@ package rtpconn
 
 import (
 	"fmt"
+	"sort"
 	"strings"
 	"testing"
 	"time"
@@ -64,7 +65,39 @@ func TestVerif_C12_SignallingFuzz(t *testing.T) {
 		writeGroupFile(gOpen, map[string]any{"users": users, "allow-recording": false, "unrestricted-tokens": true})
 		writeGroupFile(gFull, map[string]any{"users": users, "max-clients": 1})
 		writeGroupFile(gRedir, map[string]any{"users": users, "redirect": "https://elsewhere.example.org/group/x/"})
-		groups := []string{gOpen, gOpen, gFull, gRedir, tag + "missing", "", "../" + gOpen}
+		// a group whose (valid JSON, administrator-made) definition is unusual in every field a handler reads
+		gOdd := tag + "odd"
+		odd := map[string]any{"users": users}
+		oddFields := map[string][]any{
+			"codecs":              {[]string{"vp8", "opus"}, []string{"bogus"}, []string{}, []string{"", "h264", "av1", "vp9", "pcmu", "opus", "opus"}},
+			"max-clients":         {0, -1, 1, 1 << 40},
+			"max-history-age":     {0, -1, 1, 1 << 40},
+			"allow-recording":     {true, false},
+			"auto-subgroups":      {true, false},
+			"autolock":            {true, false},
+			"autokick":            {true, false},
+			"unrestricted-tokens": {true, false},
+			"public":              {true, false},
+			"displayName":         {"", "x\x00y", strings.Repeat("n", 3000)},
+			"expires":             {"1970-01-01T00:00:00Z", "9999-12-31T23:59:59Z"},
+			"not-before":          {"1970-01-01T00:00:00Z", "9999-12-31T23:59:59Z"},
+			"authServer":          {"", "http://127.0.0.1:1/", "::not a url"},
+			"authKeys":            {[]any{}, []any{map[string]any{"kty": "oct"}}, []any{map[string]any{"kty": "oct", "alg": "HS256", "k": "c2VjcmV0"}}},
+			"wildcard-user":       {map[string]any{"password": map[string]any{"type": "wildcard"}, "permissions": "present"}, map[string]any{}, map[string]any{"password": "x", "permissions": []string{"op", "record", "system", "bogus", ""}}},
+		}
+		var oddKeys []string
+		for k := range oddFields {
+			oddKeys = append(oddKeys, k)
+		}
+		sort.Strings(oddKeys) // draws in a fixed order
+		for _, k := range oddKeys {
+			vals := oddFields[k]
+			if rapid.Bool().Draw(t, "odd-"+k) {
+				odd[k] = vals[rapid.IntRange(0, len(vals)-1).Draw(t, "oddv-"+k)]
+			}
+		}
+		writeGroupFile(gOdd, odd)
+		groups := []string{gOpen, gOpen, gFull, gRedir, gOdd, gOdd, gOdd + "/child", tag + "missing", "", "../" + gOpen}
 		// tokens a client may present: with a name, with an empty name, without a name, expired, for another group
 		var toks []string
 		mkTok := func(name string, g string, user *string, exp time.Duration) {
